@@ -108,10 +108,10 @@ theorem static_ops_eq_script_ops (ctx : Ctx) (h160 : Bytes → Bytes) (n : Ms) (
    is in `Sat`, has at most `max_stack_items` elements / `max_witness_size` bytes, runs within
    `max_ops`, and `satisfy` returns none when the spending condition is false.
    Proved below: T3 over the fragment set
-     S1 = { 0, 1, pk_k, c:, v:, a:, n:, and_v, and_b, or_b, or_c, or_d, or_i, andor }
+     S1 = { 0, 1, pk_k, pk_h, sha256, hash256, ripemd160, hash160, c:, v:, a:, n:, and_v, and_b,
+            or_b, or_c, or_d, or_i, andor }
    for every candidate satisfaction/dissatisfaction of the tables (canonical and overcomplete),
-   against the minimal semantics of Model/C15/Eval.lean.  Missing: s: d: j:, pk_h, older, after,
-   the hashes, multi, multi_a, thresh; the satisfier's choice (`_better`) and
+   against the minimal semantics of Model/C15/Eval.lean.  Missing: s: d: j:, older, after, multi, multi_a, thresh; the satisfier's choice (`_better`) and
    the bounds. -/
 
 /-- T3_partial: every typed expression of S1 does to the stack what its type promises — "B": a
@@ -121,19 +121,20 @@ theorem static_ops_eq_script_ops (ctx : Ctx) (h160 : Bytes → Bytes) (n : Ms) (
     element on top — in every enclosing executed branch, touching nothing else of the stack, the
     altstack or the branch state. -/
 theorem type_soundness_partial (E : EvalEnv) (hsig0 : ∀ k, E.sigOK k [] = false)
-    (ctx : Ctx) (h160 : Bytes → Bytes) (n : Ms) (h : s1Typed ctx n = true) :
+    (ctx : Ctx) (h160 : Bytes → Bytes) (hH : ∀ k, E.hashF .hash160 k = h160 k) (n : Ms)
+    (h : s1Typed ctx n = true) :
     Sound E ctx h160 n :=
-  sound_s1 E ctx h160 hsig0 n h
+  sound_s1 E ctx h160 hsig0 hH n h
 
 /-- T4_partial (validity half, for the tables rather than the chooser): a top-level "B" of S1 run
     on any stack its satisfaction table lists ends with exactly the true value on the stack
     (accepted), and on any listed dissatisfaction with the empty vector (refused). -/
 theorem satisfaction_accepted_partial (E : EvalEnv) (hsig0 : ∀ k, E.sigOK k [] = false)
-    (ctx : Ctx) (h160 : Bytes → Bytes) (n : Ms) (h : s1Typed ctx n = true)
-    (hB : (typeOf ctx n).B = true) (s : List Bytes) :
+    (ctx : Ctx) (h160 : Bytes → Bytes) (hH : ∀ k, E.hashF .hash160 k = h160 k) (n : Ms)
+    (h : s1Typed ctx n = true) (hB : (typeOf ctx n).B = true) (s : List Bytes) :
     (Sat E n s → exec E (opsOf ctx h160 false n) ⟨s, [], []⟩ = some ⟨[[1]], [], []⟩) ∧
     (Dsat E n s → exec E (opsOf ctx h160 false n) ⟨s, [], []⟩ = some ⟨[[]], [], []⟩) := by
-  obtain ⟨bs, bd, _⟩ := (sound_s1 E ctx h160 hsig0 n h).1 hB
+  obtain ⟨bs, bd, _⟩ := (sound_s1 E ctx h160 hsig0 hH n h).1 hB
   constructor
   · intro hs; simpa using bs s [] [] [] rfl hs
   · intro hs; simpa using bd s [] [] [] rfl hs
